@@ -7,6 +7,7 @@ import Jrpc.Call
 import Jrpc.Reader
 import Jrpc.Locks
 import Jrpc.Stream
+import Jrpc.Corr
 /-
   Jrpc.Ops — dispatch of driver operations onto the model's executable definitions.
 -/
@@ -330,6 +331,95 @@ def opStream (j : Json) : R Json := do
     ("inTransit", natsJ s.inTransit), ("hCloseSeen", s.hCloseSeen), ("ctxCancelled", s.ctxCancelled),
     ("prefixOK", isPrefixOf s.recv s.sent)]
 
+def corrEv (e : Json) : R Corr.Ev := do
+  let a := natD e "a" 0
+  let idOf : R NId := do nid (← fld e "id")
+  match (← str e "e") with
+  | "enq" => return .enq a (← idOf)
+  | "exitErr" => return .exitErr a
+  | "recv" => return .recv a (← bool e "err")
+  | "take" => return .take a
+  | "failfast" => return .failfast a
+  | "errCheck" => return .errCheck a (← bool e "err")
+  | "register" => return .register a
+  | "wrote" => return .wrote a
+  | "notifReply" => return .notifReply a (boolD e "bad" false)
+  | "lookup" => return .lookup (← idOf) (← bool e "found")
+  | "deliver" => return .deliver (← idOf) a
+  | "delete" => return .delete (← idOf)
+  | "cifSend" => return .cifSend (← idOf) a (← bool e "ok")
+  | "cifClear" => return .cifClear
+  | "readerErr" => return .readerErr
+  | "readError" => return .readError
+  | "reconnBegin" => return .reconnBegin
+  | "reconnSpawn" => return .reconnSpawn
+  | "swap" => return .swap
+  | "abort" => return .abort
+  | "exitBegin" => return .exitBegin
+  | "exited" => return .exited
+  | "peerExec" => return .peerExec a
+  | x => throw s!"bad corr event {x}"
+
+/-- Replay of one endpoint's correlation events.  Sends into a channel are logged when they begin and
+    receives after they complete, but two log entries written by different goroutines around one
+    rendezvous can come in either order.  When an event is refused the replayer therefore tries the
+    not-yet-logged step that would explain it — the executor's completed send (`deliverDone`, never
+    logged), the sweep's send to that attempt, or `close(exiting)` — applies it, remembers it if it
+    has a log entry of its own (which is then skipped), and retries once. -/
+def replayCorr (es : List Corr.Ev) : Corr.St × Option Nat × Nat :=
+  let rec go (s : Corr.St) (early : List Corr.Ev) (taus : Nat) (i : Nat) : List Corr.Ev → Corr.St × Option Nat × Nat
+    | [] => (s, none, taus)
+    | e :: rest =>
+      if early.contains e then go s (early.erase e) taus (i + 1) rest
+      else
+        match Corr.step? s e with
+        | some s' => go s' early taus (i + 1) rest
+        | none =>
+          -- candidates, in order
+          let viaDone := (Corr.step? s .deliverDone).bind (fun s1 => Corr.step? s1 e)
+          match viaDone with
+          | some s2 => go s2 early (taus + 1) (i + 1) rest
+          | none =>
+            match e with
+            | .recv a true =>
+              let id := (s.att a).id
+              (match (Corr.step? s (.cifSend id a true)).bind (fun s1 => Corr.step? s1 e) with
+               | some s2 => go s2 (Corr.Ev.cifSend id a true :: early) (taus + 1) (i + 1) rest
+               | none => (s, some i, taus))
+            | .exitErr _ =>
+              (match (Corr.step? s .exited).bind (fun s1 => Corr.step? s1 e) with
+               | some s2 => go s2 (Corr.Ev.exited :: early) (taus + 1) (i + 1) rest
+               | none => (s, some i, taus))
+            | _ => (s, some i, taus)
+  go {} [] 0 0 es
+
+/-- op "corr": one endpoint's correlation events in trace order; answers acceptance and, per attempt
+    asked about, what the model says it received and how often it was executed. -/
+def opCorr (j : Json) : R Json := do
+  let es ← (arrD j "events").mapM corrEv
+  let (s, refused, taus) := replayCorr es
+  let asks ← (arrD j "attempts").mapM (·.getNat?)
+  let msgJ : Corr.Msg → Json
+    | .connErr => "connErr"
+    | .ack => "ack"
+    | .genuine id => Json.mkObj [("genuine", nidJ id)]
+  let attJ (a : Nat) : Json :=
+    let t := s.att a
+    Json.mkObj [("a", a), ("recvd", optJ msgJ t.recvd), ("exitErr", t.exitErr), ("execs", s.execs a),
+                ("wrote", t.wrote), ("mail", t.mail.length), ("taken", t.taken)]
+  return Json.mkObj [("accepted", refused.isNone), ("refusedAt", optJ (fun (n : Nat) => (n : Json)) refused),
+    ("taus", taus), ("inflight", s.inflight.length), ("exitingClosed", s.exitingClosed),
+    ("incomingErr", s.incomingErr), ("attempts", Json.arr (asks.map attJ).toArray)]
+
+/-- op "oneshot": the id check of the HTTP / custom transports. -/
+def opOneShot (j : Json) : R Json := do
+  let req ← nid (← fld j "req")
+  let resp ← wireId (← fld j "resp")
+  let acc := match normalizeID resp with
+    | some i => i == req
+    | none => false
+  return Json.mkObj [("accepted", acc)]
+
 def run (j : Json) : R Json := do
   match (← str j "op") with
   | "http" => opHttp j
@@ -344,6 +434,8 @@ def run (j : Json) : R Json := do
   | "rendezvous" => opRendezvous j
   | "locks" => opLocks j
   | "stream" => opStream j
+  | "corr" => opCorr j
+  | "oneshot" => opOneShot j
   | "authhttp" => opAuthHttp j
   | op => throw s!"unknown op {op}"
 
